@@ -32,13 +32,14 @@ def run (lines : Array String) : IO Report := do
   let mut mix := "c04"
   let mut evs : Array Raw := #[]
   let mut finals : List (String × Nat) := []      -- key, value id of the final read
+  let mut fileTicks : List Nat := []              -- mix c05: ticks at which the running pass removed or cut a data file
   for l in lines do
     ln := ln + 1
     if l.startsWith "#" then continue
     let (ws, obs) := splitLine l
     match ws with
     | "case" :: id :: opts =>
-        cid := id; mix := (kvOpt opts "mix").getD "c04"; evs := #[]; finals := []
+        cid := id; mix := (kvOpt opts "mix").getD "c04"; evs := #[]; finals := []; fileTicks := []
     | "ev" :: opts =>
         let geti := fun n => parseInt ((kvOpt opts n).getD "0")
         let key := (kvOpt opts "key").getD ""
@@ -74,6 +75,8 @@ def run (lines : Array String) : IO Report := do
             if fv ≠ val then diff rep ln "oracle" s!"case={cid} key=C05/after-restart key {key.take 24} held value #{fv} when everything had stopped and reads value #{val} after a restart"
         | none => pure ()
         ok rep
+    | "gcfile" :: opts =>
+        fileTicks := ((kvOpt opts "tick").getD "0").toNat! :: fileTicks
     | "gcreq" :: opts =>
         let mc := ((kvOpt opts "maxconcurrent").getD "0").toNat!
         if mc > 1 then diff rep ln "oracle" s!"case={cid} key=C17/two-passes-one-bucket {mc} GC passes ran on one bucket at the same time ({l.take 120})"
@@ -104,7 +107,13 @@ def run (lines : Array String) : IO Report := do
               let why := match newer.head? with
                 | some w => s!"older than the write {describe w} acknowledged before the read began"
                 | none => s!"no write of this key invoked before the read ended stored value #{val} with version {ver}"
-              diff rep r.line "oracle" s!"case={cid} key={pfx}/stale-or-unwritten-read key {k.take 24} {describe r}: {why}"
+              -- a get of a client that was under way while the pass removed or cut a data file (the mechanism of the concgc
+              -- schedules reuse / reuse-delete: the position the reader took is reused by what the pass writes next — a newer
+              -- record of the key, a delete marker, or another key's record, which reads as a miss)
+              let across := mix == "c05" && r.cl ≠ 0 && (match r.ev.op with | .read => true | _ => false) &&
+                fileTicks.any (fun t => decide (r.ev.inv < t) && decide (t < r.ev.resp))
+              let sub := if across then "/get-across-file-reuse" else ""
+              diff rep r.line "oracle" s!"case={cid} key={pfx}/stale-or-unwritten-read{sub} key {k.take 24} {describe r}: {why}"
           if !_root_.Conc.checkB h then
             let bad := rs.findSome? fun a => rs.findSome? fun b =>
               match _root_.Conc.accVer a.ev.out, _root_.Conc.accVer b.ev.out with
